@@ -127,7 +127,7 @@ fn c20_classify_silence_is_insufficient_and_rejection_needs_opposition() {
 // confidences, score harnesses use a concrete structure with fully symbolic f64 confidences.
 
 // (symbolic group structure: 121 s before the fix commit, > 600 s with the sorted fold; thorough tier)
-// @check id=C20 tier=thorough cap=1500 role=groups_are_components_two
+// @check id=C20 tier=thorough cap=600 role=groups_are_components_two
 // @fns projection::aggregate
 // @bound two supporting candidates; the first is (actor 0, evidence 0), the second's actor and evidence ids are symbolic in 0..2 (same / different actor x same / different evidence, without loss of generality); confidences fixed (0.25, 0.5)
 // @stubs alloc::fmt::format -> positional model (i-th call returns the identity byte of the i-th key)
@@ -336,7 +336,7 @@ fn bridged(pos: u8) {
 // @fns projection::aggregate
 // @bound X (actor 0, evidence 0), Y (actor 1, evidence 1), Z (actor 0, evidence 1) bridges both; one concrete recording order per harness (XYZ / ZXY); confidences any f64 in [0,1]
 // @stubs alloc::fmt::format -> positional model
-// @check id=C20 tier=thorough cap=1500 role=bridge_keeps_strongest_member harness=c20_bridge_recorded_between
+// @check id=C20 tier=thorough cap=600 role=bridge_keeps_strongest_member harness=c20_bridge_recorded_between
 // @fns projection::aggregate
 // @bound as above for the order XZY (306 s measured)
 // @stubs alloc::fmt::format -> positional model
@@ -384,7 +384,7 @@ fn three_groups(pos: u8) {
     kani::cover!(links1 && !links2 && a3 != 0, "linked to the first by evidence only");
     std::mem::forget(v);
 }
-// @check id=C20 tier=thorough cap=1500 role=groups_are_components_three harness=c20_three_groups_third_first,c20_three_groups_third_between,c20_three_groups_third_last
+// @check id=C20 tier=thorough cap=600 role=groups_are_components_three harness=c20_three_groups_third_first,c20_three_groups_third_between,c20_three_groups_third_last
 // @fns projection::aggregate
 // @bound candidates 1 and 2 independent (actors 0,1; evidence 0,1); candidate 3 has actor a3 and evidence e3 symbolic in 0..3 (repeat an actor, re-cite evidence, bridge both, or independent); one concrete recording position per harness; confidences fixed
 // @stubs alloc::fmt::format -> positional model
